@@ -80,12 +80,22 @@ func (m *recoverer) Close() error {
 
 	err := m.service.Close()
 
-	select {
-	case m.stopped <- errServiceContextCancelled:
-	default:
-	}
+	// the stop signal must not be lost: the channel holds one message and the
+	// service goroutine may just have put its own result there (Start returns
+	// once the service is closed). A pending message of a service that is being
+	// closed is obsolete, so it gives way to the stop signal.
+	for {
+		select {
+		case m.stopped <- errServiceContextCancelled:
+			return err
+		default:
+		}
 
-	return err
+		select {
+		case <-m.stopped:
+		default:
+		}
+	}
 }
 
 func (m *recoverer) serviceStart(ctx context.Context) {
